@@ -160,11 +160,13 @@ CHECKS = {
          "leaf-optimised rules) is modelled as a stack machine over the enter/exit events; for every trace of the matcher model — any grammar, actions (vetoing, throwing), selector, input — the trace is the event list of one "
          "invocation tree (run_tree) and the machine returns exactly the declarative surviving derivation of that tree (C12_tree via run_specT): nodes = successful invocations of selected rules all of whose enclosing invocations "
          "succeeded (inside a succeeding at<> included), in order and nesting, begin/end = cursor at entry/return; nothing from a failed or exception-aborted invocation (C12_failed_contributes_nothing); unselected rules contracted "
-         "(C12_unselected_contracted); tree iff the parse succeeds (C12_iff); store / remove_content / fold_one / discard_empty exactly as documented (C12_remove_content, C12_fold_one_*, C12_discard_empty_*)."),
+         "(C12_unselected_contracted); tree iff the parse succeeds (C12_iff); store / remove_content / fold_one / discard_empty exactly as documented (C12_remove_content, C12_fold_one_*, C12_discard_empty_*). Positions: every invocation tree of the model is well-chained — below every successful invocation of a rule that does not re-read input the successful "
+         "sub-invocations are ordered and lie within the invocation's span (C12_invocations_chained, induction over all rule kinds with the cursor) — and for grammars without at / not_at / rematch the returned tree is the pre-order of rose trees in which "
+         "every node's children are ordered and contained in the node's span, for every selector assignment (C12_children_contained; specT_flat ties the rose-tree form to the list form the machine produces)."),
    note=GENERAL_NOTE + " The soundness of the compile-time leaf optimisation is a hypothesis of the general C12_tree (leafOKT) and is *proved* for the real classification on grammars without match()-carrying action classes "
-        "(C12_tree_static, C12_leaf_optimisation_invisible: every invocation tree respects the rule table, is_leaf is sound on such trees); is_leaf is computed over the model's callee lists (subs_t plus derived hidden rules: never less conservative). Partial: positional containment of children holds only outside look-ahead / rematch and is checked by the oracle "
-        "as tree containment, not proved. parse_tree_to_dot is not modelled. state<> rules cannot be combined with parse_tree::parse (the tree state is dropped from the pack; does not compile) and are excluded.",
-   technique="Lean 4 proof that a stack-machine model of the parse_tree node builder computes the declarative surviving derivation on every model trace (mutual induction over invocation trees); differential real parse_tree::parse vs model (trace and tree); independent Python recomputation of the derivation from the implementation's enter/exit log"),
+        "(C12_tree_static, C12_leaf_optimisation_invisible: every invocation tree respects the rule table, is_leaf is sound on such trees); is_leaf is computed over the model's callee lists (subs_t plus derived hidden rules: never less conservative). The clause 'children contained in and ordered within their parent' is false below look-ahead and rematch (KNOWN-FINDING F20, witness C12_containment_fails_below_lookahead: the property itself counts matches inside a succeeding and-predicate "
+        "as part of the tree); it is proved for every grammar without such rules, and the containment oracle tolerates a failure only on grammars that contain them. parse_tree_to_dot is not modelled. state<> rules cannot be combined with parse_tree::parse (the tree state is dropped from the pack; does not compile) and are excluded.",
+   technique="Lean 4 proof that a stack-machine model of the parse_tree node builder computes the declarative surviving derivation on every model trace (mutual induction over invocation trees); differential real parse_tree::parse vs model (trace and tree); independent Python recomputation of the derivation from the implementation's enter/exit log; containment oracle on the returned tree"),
 }
 
 PENDING = {
